@@ -1129,7 +1129,11 @@ def _kf_c38(self, tier):
                       'outputs': ['f5'], 'tags': ['irreducible_hidden_degree']}},
             {'family': 'poly', 'cfg': _cfgj(2, 0), 'opts': {'step_cap': 30000, 'cap_is_violation': True},
              'prog': {'family': 'poly', 'p': 31, 'stmts': [['const', 'f2', [], {'coeffs': [0]}], ['monic', 'f3', ['f2'], {}]],
-                      'outputs': ['f3'], 'tags': ['monic_zero']}}]
+                      'outputs': ['f3'], 'tags': ['monic_zero']}},
+            {'family': 'poly', 'cfg': _cfgj(1, 0),
+             'prog': {'family': 'poly', 'p': 31, 'stmts': [['const', 'f1', [], {'coeffs': [14, 2, 23, 0]}], ['const', 'f2', [], {'coeffs': [14, 18, 6]}],
+                                                           ['gcdext', ['f5', 'f6', 'f7'], ['f1', 'f2'], {}]],
+                      'outputs': ['f5', 'f6', 'f7'], 'tags': ['gcdext']}}]
 
 
 C38.kf_cases = _kf_c38
